@@ -29,9 +29,19 @@ type c02Case struct {
 	// "little"/"big" = override hook, seccomp_data encoded accordingly.
 	Order string `json:"order"`
 	Arch  string `json:"arch"`
+	// Alt: further single-condition entries for the same syscall and argument (alternatives, OR):
+	// the entry set matches iff any of the conditions holds.
+	Alt []c02Alt `json:"alt,omitempty"`
 }
 
-var nativeOrder = seccomp.VerifByteOrder() // captured before any override
+type c02Alt struct {
+	Op  string `json:"op"`
+	Val uint64 `json:"val"`
+}
+
+// seccomp_data of a "native" event is laid out in the byte order of the machine the kernel (and this test) runs
+// on, determined independently of the package: see hostOrder.
+var nativeOrder = seccomp.VerifByteOrder() // what the package detected itself, captured before any override
 
 func orderOf(mode string) binary.ByteOrder {
 	switch mode {
@@ -40,7 +50,7 @@ func orderOf(mode string) binary.ByteOrder {
 	case "big":
 		return binary.BigEndian
 	}
-	return nativeOrder
+	return hostOrder()
 }
 
 // relation class of one half: 0 '<', 1 '=', 2 '>'
@@ -77,6 +87,9 @@ func checkC02(raw json.RawMessage) (ev.Result, error) {
 	}
 	p := spec.Policy{Arch: c.Arch, Default: c02Default, Groups: []spec.Group{{Action: c02Matched,
 		Conds: []spec.CondEntry{{Name: c02Syscall, Conds: []spec.Cond{{Arg: c.Arg, Op: c.Op, Val: c.Val}}}}}}}
+	for _, a := range c.Alt {
+		p.Groups[0].Conds = append(p.Groups[0].Conds, spec.CondEntry{Name: c02Syscall, Conds: []spec.Cond{{Arg: c.Arg, Op: a.Op, Val: a.Val}}})
+	}
 	cp, cerr, pan := compilePolicy(&p)
 	if pan != nil {
 		return ev.Result{}, fmt.Errorf("Assemble panicked: %v", pan)
@@ -94,6 +107,13 @@ func checkC02(raw json.RawMessage) (ev.Result, error) {
 	if err != nil {
 		return ev.Result{}, ev.Inconclusivef("%v", err)
 	}
+	for _, a := range c.Alt {
+		h, err := model.EvalCond(a.Op, c.Act, a.Val)
+		if err != nil {
+			return ev.Result{}, ev.Inconclusivef("%v", err)
+		}
+		holds = holds || h
+	}
 	want := uint32(c02Default)
 	if holds {
 		want = c02Matched
@@ -104,8 +124,8 @@ func checkC02(raw json.RawMessage) (ev.Result, error) {
 		return ev.Result{}, fmt.Errorf("program fails on %s: %v", fmtEvent(e), err)
 	}
 	if got != want {
-		return ev.Result{}, fmt.Errorf("%s(arg%d, %#x) on actual %#x (byte order %s/%s): relation is %v but filter returns %#x (want %#x); other arguments %#x",
-			c.Op, c.Arg, c.Val, c.Act, c.Order, bo, holds, got, want, e.Args)
+		return ev.Result{}, fmt.Errorf("%s(arg%d, %#x)%s on actual %#x (byte order %s/%s): relation is %v but filter returns %#x (want %#x); other arguments %#x",
+			c.Op, c.Arg, c.Val, altText(c.Alt), c.Act, c.Order, bo, holds, got, want, e.Args)
 	}
 	ah, al, vh, vl := uint32(c.Act>>32), uint32(c.Act), uint32(c.Val>>32), uint32(c.Val)
 	res := ev.Result{Classes: []string{"op:" + c.Op, fmt.Sprintf("arg:%d", c.Arg), "order:" + c.Order,
@@ -122,6 +142,9 @@ func checkC02(raw json.RawMessage) (ev.Result, error) {
 			res.NonTrivial = true
 			res.Classes = append(res.Classes, "halves-in-different-relation-classes")
 		}
+	}
+	if len(c.Alt) > 0 {
+		res.Classes = append(res.Classes, "alternative-entries-for-the-same-argument")
 	}
 	if holds {
 		res.Classes = append(res.Classes, "relation-holds")
@@ -217,6 +240,32 @@ func drawC02(t *rapid.T) c02Case {
 	default:
 		c.Act = u64("act")
 	}
+	if rapid.IntRange(0, 3).Draw(t, "withAlt") == 0 {
+		// alternatives: the same argument compared with further operands that share words with the first one
+		n := rapid.IntRange(1, 3).Draw(t, "nAlt")
+		for i := 0; i < n; i++ {
+			a := c02Alt{Op: c.Op, Val: c.Val}
+			if rapid.IntRange(0, 3).Draw(t, "altOtherOp") == 0 {
+				a.Op = spec.Ops[rapid.IntRange(0, 7).Draw(t, "altOp")]
+			}
+			switch rapid.IntRange(0, 3).Draw(t, "altVal") {
+			case 0:
+				a.Val = c.Val&^0xffffffff | uint64(rapid.IntRange(0, 9).Draw(t, "altLo")) // same high word, small low word
+			case 1:
+				a.Val = c.Val + uint64(rapid.IntRange(1, 3).Draw(t, "altDelta"))
+			case 2:
+				a.Val = uint64(rapid.IntRange(0, 9).Draw(t, "altSmall"))
+			default:
+				a.Val = u64("altAny")
+			}
+			c.Alt = append(c.Alt, a)
+		}
+		// an actual value whose HIGH word equals the LOW word of one of the operands (and the other way round)
+		if rapid.Bool().Draw(t, "altCross") {
+			pick := c.Alt[rapid.IntRange(0, len(c.Alt)-1).Draw(t, "altPick")].Val
+			c.Act = (pick&0xffffffff)<<32 | uint64(rapid.IntRange(0, 9).Draw(t, "actLo"))
+		}
+	}
 	for k := range c.Noise {
 		switch rapid.IntRange(0, 2).Draw(t, "noiseClass") {
 		case 0:
@@ -232,4 +281,12 @@ func drawC02(t *rapid.T) c02Case {
 
 func TestC02Random(t *testing.T) {
 	ev.Prop(t, "C02", "random", drawC02, checkC02)
+}
+
+func altText(alt []c02Alt) string {
+	var out string
+	for _, a := range alt {
+		out += fmt.Sprintf(" OR %s(%#x)", a.Op, a.Val)
+	}
+	return out
 }
